@@ -6,43 +6,51 @@ import GoBT.Interp.NoPanic
 namespace GoBT.Interp
 open GoBT GoBT.Script
 
-/-- closes goals `r = .ok s' → s'.cond = s.cond` where `r` is a nest of matches / ifs ending in error values or in
+/-- the fields the no-panic invariants talk about are unchanged -/
+def St.same (s' s : St) : Prop :=
+  s'.cond = s.cond ∧ s'.lastCodeSep = s.lastCodeSep ∧ s'.sepSeen = s.sepSeen
+
+theorem St.same_refl (s : St) : s.same s := ⟨rfl, rfl, rfl⟩
+theorem St.same_trans {a b c : St} (h1 : a.same b) (h2 : b.same c) : a.same c :=
+  ⟨h1.1.trans h2.1, h1.2.1.trans h2.2.1, h1.2.2.trans h2.2.2⟩
+
+/-- closes goals `r = .ok s' → s'.same s` where `r` is a nest of matches / ifs ending in error values or in
     updates of fields other than `cond` -/
 macro "cond_same" : tactic =>
-  `(tactic| ((repeat' split) <;> (intro h; first | (cases h; done) | (cases h; rfl))))
+  `(tactic| ((repeat' split) <;> (intro h; first | (cases h; done) | (cases h; exact ⟨rfl, rfl, rfl⟩))))
 
 /-- the same, splitting inside the hypothesis (for bodies where a `match` sits under another one's alternative) -/
 macro "cond_same_h" : tactic =>
-  `(tactic| (intro h; (repeat' (first | split at h | (simp only [] at h; split at h))) <;> first | (cases h; done) | (cases h; rfl)))
+  `(tactic| (intro h; (repeat' (first | split at h | (simp only [] at h; split at h))) <;> first | (cases h; done) | (cases h; exact ⟨rfl, rfl, rfl⟩)))
 
-theorem unaryNum_cond (env : Env) (s s' : St) (f : Int → Int) : unaryNum env s f = .ok s' → s'.cond = s.cond := by
+theorem unaryNum_cond (env : Env) (s s' : St) (f : Int → Int) : unaryNum env s f = .ok s' → s'.same s := by
   unfold unaryNum; cond_same
 
 theorem binaryNum_cond (env : Env) (s s' : St) (f : Int → Int → Except String Int) :
-    binaryNum env s f = .ok s' → s'.cond = s.cond := by
+    binaryNum env s f = .ok s' → s'.same s := by
   unfold binaryNum; cond_same
 
-theorem verifyTop_cond (code : String) (s s' : St) : verifyTop code s = .ok s' → s'.cond = s.cond := by
+theorem verifyTop_cond (code : String) (s s' : St) : verifyTop code s = .ok s' → s'.same s := by
   unfold verifyTop stackErr; cond_same
 
-theorem opCheckSig_cond (env : Env) (sub : List POp) (s s' : St) : opCheckSig env sub s = .ok s' → s'.cond = s.cond := by
+theorem opCheckSig_cond (env : Env) (sub : List POp) (s s' : St) : opCheckSig env sub s = .ok s' → s'.same s := by
   unfold opCheckSig stackErr pushBool; cond_same_h
 
 theorem opCheckMultiSig_cond (env : Env) (sub : List POp) (s s' : St) :
-    opCheckMultiSig env sub s = .ok s' → s'.cond = s.cond := by
+    opCheckMultiSig env sub s = .ok s' → s'.same s := by
   unfold opCheckMultiSig stackErr pushBool; simp only []; cond_same_h
 
-theorem handlerStack_cond (env : Env) (s s' : St) (v : Nat) : handlerStack env s v = .ok s' → s'.cond = s.cond := by
+theorem handlerStack_cond (env : Env) (s s' : St) (v : Nat) : handlerStack env s v = .ok s' → s'.same s := by
   unfold handlerStack stackErr pushNum
   split
   all_goals first | cond_same | (simp only []; cond_same)
 
-theorem handlerSplice_cond (env : Env) (s s' : St) (v : Nat) : handlerSplice env s v = .ok s' → s'.cond = s.cond := by
+theorem handlerSplice_cond (env : Env) (s s' : St) (v : Nat) : handlerSplice env s v = .ok s' → s'.same s := by
   unfold handlerSplice stackErr pushNum
   split
   all_goals first | cond_same | (simp only []; cond_same)
 
-theorem handlerNum_cond (env : Env) (s s' : St) (v : Nat) : handlerNum env s v = .ok s' → s'.cond = s.cond := by
+theorem handlerNum_cond (env : Env) (s s' : St) (v : Nat) : handlerNum env s v = .ok s' → s'.same s := by
   unfold handlerNum stackErr
   split
   all_goals first
@@ -52,46 +60,57 @@ theorem handlerNum_cond (env : Env) (s s' : St) (v : Nat) : handlerNum env s v =
     | (simp only []; cond_same)
     | (intro h
        split at h
-       · next s1 h1 => rw [verifyTop_cond _ _ _ h, binaryNum_cond _ _ _ _ h1]
+       · next s1 h1 => exact St.same_trans (verifyTop_cond _ _ _ h) (binaryNum_cond _ _ _ _ h1)
        · next r hr => exact binaryNum_cond _ _ _ _ h)
 
-theorem wrapVerify_cond (r : Res) (b : Bool) (code : String) (s s' : St) (hr : ∀ s1, r = .ok s1 → s1.cond = s.cond)
-    (h : (match r with | .ok s1 => if b then verifyTop code s1 else .ok s1 | r => r) = .ok s') : s'.cond = s.cond := by
+theorem wrapVerify_cond (r : Res) (b : Bool) (code : String) (s s' : St) (hr : ∀ s1, r = .ok s1 → s1.same s)
+    (h : (match r with | .ok s1 => if b then verifyTop code s1 else .ok s1 | r => r) = .ok s') : s'.same s := by
   cases r with
   | ok s1 =>
     simp only at h
     split at h
-    · rw [verifyTop_cond _ _ _ h]; exact hr s1 rfl
+    · exact St.same_trans (verifyTop_cond _ _ _ h) (hr s1 rfl)
     · cases h; exact hr _ rfl
   | success s1 => cases h
   | err e => cases h
   | panic p => cases h
 
+/-- hashes and signature checks leave the three fields alone; OP_CODESEPARATOR records its own offset -/
 theorem handlerCrypto_cond (env : Env) (cur : List POp) (off : Nat) (s s' : St) (v : Nat) :
-    handlerCrypto env cur off s v = .ok s' → s'.cond = s.cond := by
+    handlerCrypto env cur off s v = .ok s' →
+      (v ≠ 0xab → s'.same s) ∧ (v = 0xab → s'.cond = s.cond ∧ s'.lastCodeSep = off ∧ s'.sepSeen = true) := by
   unfold handlerCrypto stackErr
   split
+  -- a6..aa
+  iterate 5 ((repeat' split) <;> (intro h; first | (cases h; done) | (cases h; exact ⟨fun _ => ⟨rfl, rfl, rfl⟩, fun e => by omega⟩)))
+  · intro h; cases h; exact ⟨fun e => absurd rfl e, fun _ => ⟨rfl, rfl, rfl⟩⟩
   all_goals first
-    | cond_same
-    | (simp only []; intro h
-       first
-        | exact wrapVerify_cond _ _ _ s s' (fun s1 h1 => opCheckSig_cond _ _ _ _ h1) h
-        | exact wrapVerify_cond _ _ _ s s' (fun s1 h1 => opCheckMultiSig_cond _ _ _ _ h1) h)
+    | (intro h
+       refine ⟨fun _ => ?_, fun e => by omega⟩
+       cases hs : subScript cur s with
+       | none => rw [hs] at h; cases h
+       | some sub =>
+         rw [hs] at h
+         simp only [] at h
+         first
+          | exact wrapVerify_cond _ _ _ s s' (fun s1 h1 => opCheckSig_cond _ _ _ _ h1) h
+          | exact wrapVerify_cond _ _ _ s s' (fun s1 h1 => opCheckMultiSig_cond _ _ _ _ h1) h)
+    | (intro h; cases h)
 
 theorem errOr_ok (r : Option String) (k : Res) (s' : St) (h : errOr r k = .ok s') : k = .ok s' := by
   cases r with
   | none => exact h
   | some e => cases h
 
-theorem cltvWithTx_cond (c : Ctx) (lock : Int) (s s' : St) : cltvWithTx c lock s = .ok s' → s'.cond = s.cond := by
+theorem cltvWithTx_cond (c : Ctx) (lock : Int) (s s' : St) : cltvWithTx c lock s = .ok s' → s'.same s := by
   unfold cltvWithTx
   intro h
   have := errOr_ok _ _ _ h
   revert this
   split <;> intro h2 <;> cases h2
-  rfl
+  exact ⟨rfl, rfl, rfl⟩
 
-theorem csvWithTx_cond (c : Ctx) (sq : Nat) (s s' : St) : csvWithTx c sq s = .ok s' → s'.cond = s.cond := by
+theorem csvWithTx_cond (c : Ctx) (sq : Nat) (s s' : St) : csvWithTx c sq s = .ok s' → s'.same s := by
   unfold csvWithTx
   split
   · intro h; cases h
@@ -101,9 +120,9 @@ theorem csvWithTx_cond (c : Ctx) (sq : Nat) (s s' : St) : csvWithTx c sq s = .ok
     · intro h
       have := errOr_ok _ _ _ h
       cases this
-      rfl
+      exact ⟨rfl, rfl, rfl⟩
 
-theorem handlerLock_cond (env : Env) (s s' : St) (v : Nat) : handlerLock env s v = .ok s' → s'.cond = s.cond := by
+theorem handlerLock_cond (env : Env) (s s' : St) (v : Nat) : handlerLock env s v = .ok s' → s'.same s := by
   unfold handlerLock stackErr
   split
   iterate 8 cond_same
@@ -134,7 +153,7 @@ theorem handlerLock_cond (env : Env) (s s' : St) (v : Nat) : handlerLock env s v
           · cases h
           · simp only [] at h
             split at h
-            · cases h; rfl
+            · cases h; exact ⟨rfl, rfl, rfl⟩
             · split at h
               · cases h
               · exact csvWithTx_cond _ _ _ _ h
@@ -148,12 +167,12 @@ open GoBT GoBT.Script
 /-- run-time change of the conditional-stack depth caused by an opcode that completes normally -/
 def rtDelta (v : Nat) : Int := if v = 0x63 ∨ v = 0x64 then 1 else if v = 0x68 then -1 else 0
 
-theorem popIfBool_cond (env : Env) (s s1 : St) (b : Bool) (h : popIfBool env s = .ok (b, s1)) : s1.cond = s.cond := by
+theorem popIfBool_cond (env : Env) (s s1 : St) (b : Bool) (h : popIfBool env s = .ok (b, s1)) : s1.same s := by
   unfold popIfBool at h
-  (repeat' split at h) <;> first | (cases h; done) | (cases h; rfl)
+  (repeat' split at h) <;> first | (cases h; done) | (cases h; exact ⟨rfl, rfl, rfl⟩)
 
 theorem handlerFlow_depth (env : Env) (o : POp) (s s' : St) (v : Nat) (h : handlerFlow env o s v = .ok s') :
-    (s'.cond.length : Int) = s.cond.length + rtDelta v := by
+    (s'.cond.length : Int) = s.cond.length + rtDelta v ∧ s'.lastCodeSep = s.lastCodeSep ∧ s'.sepSeen = s.sepSeen := by
   unfold handlerFlow at h
   split at h
   · cases h; simp [rtDelta]
@@ -165,7 +184,8 @@ theorem handlerFlow_depth (env : Env) (o : POp) (s s' : St) (v : Nat) (h : handl
         · cases h
         · next b s1 hp =>
           cases h
-          simp [rtDelta, popIfBool_cond _ _ _ _ hp]
+          have := popIfBool_cond _ _ _ _ hp
+          simp [rtDelta, this.1, this.2.1, this.2.2]
       · cases h; simp [rtDelta]
     · cases h; simp [rtDelta]
   · -- NOTIF
@@ -175,7 +195,8 @@ theorem handlerFlow_depth (env : Env) (o : POp) (s s' : St) (v : Nat) (h : handl
         · cases h
         · next b s1 hp =>
           cases h
-          simp [rtDelta, popIfBool_cond _ _ _ _ hp]
+          have := popIfBool_cond _ _ _ _ hp
+          simp [rtDelta, this.1, this.2.1, this.2.2]
       · cases h; simp [rtDelta]
     · cases h; simp [rtDelta]
   · split at h
@@ -204,7 +225,8 @@ theorem handlerFlow_depth (env : Env) (o : POp) (s s' : St) (v : Nat) (h : handl
         · simp [stackErr] at h
         · cases h; simp [rtDelta, hc]; omega
       · cases h; simp [rtDelta, hc]; omega
-  · rw [verifyTop_cond _ _ _ h]; simp [rtDelta]
+  · have := verifyTop_cond _ _ _ h
+    simp [rtDelta, this.1, this.2.1, this.2.2]
   · split at h
     · cases h
     · split at h
